@@ -1,41 +1,48 @@
 /-
   Props/C11.lean — side inputs of a loop (C11): `Start<BinaryStartReceiver>` with a cached side
-  (src/operator/start/binary.rs composed with src/operator/start/mod.rs:213-311).
+  (src/operator/start/binary.rs, as of 6c83288 + 14727d5, composed with src/operator/start/mod.rs:213-311).
 
-  Full-strength statements of the property (a history is a list of `enq`/`pump` ops, see
-  Model/BinaryStart.lean; it is *contract respecting* when the cached side sends one iteration and
-  terminates, the loop side sends `K` synchronised rounds and then terminates, and no round starts
-  before the previous one is over on both sides):
+  A history is a list of `enq`/`pump` ops (Model/BinaryStart.lean): batches put into the two channels in
+  any order, pulls (`next()` until the receive timeout or `Terminate`) anywhere in between — so every
+  interleaving of the two sides and every pattern of receive timeouts is a history. The input contract
+  `contractL nL nR h` (left side cached; Lemmas/BinaryStart.lean: `cachedOk`, `loopOk`) says: every batch
+  is `plain elements ++ control tail`; the cached side sends one iteration (`nL` `FlushAndRestart`s in all,
+  `Terminate`s after them, no data after the last `FlushAndRestart`); the loop side sends rounds of `nR`
+  `FlushAndRestart`s, each batch ending at its `FlushAndRestart`, and then, after at least one round and
+  between rounds only, `Terminate`s in batches of their own (this is what `End` produces: it flushes at
+  `FlushAndRestart` and at `Terminate`, src/operator/end.rs:223-228). Replicas are not told apart (only
+  counts matter to the receiver), and NO synchronisation between the two sides is assumed: the receiver
+  enforces it by not listening.
 
-    cache_replayed_each_round : for every contract-respecting history, every parallelism and every
-        interleaving, `c11Ok cachedLeft (run … h).1` — every round closed by a `FlushAndRestart`
-        presents the cached side exactly as round 1 did (same elements, same order, End marker
-        once) and nothing of the cached side follows the last `FlushAndRestart`;
-    cache_read_once           : once the cached side has sent all its `Terminate`s its channel is never
-        received from again;
-    cached_terminate_once     : the output contains `Terminate` at most once, as its last element, and
-        nothing is pulled after it.
+  Proved at full strength for the left side cached, every `nL, nR ≥ 1`, every contract-respecting history:
+    cache_replayed_each_round        every round closed by a `FlushAndRestart` presents the cached side
+                                     (its data elements and its End marker, in order) exactly as round 1;
+    cache_not_replayed_after_loop_end  when the run has returned `Terminate`, the output ends
+                                     `… FlushAndRestart, Terminate` — nothing of the cached side (nothing at
+                                     all) after the last `FlushAndRestart` (`c11Ok`);
+    end_marker_once_each_round       every closed round contains the cached side's End marker exactly once;
+    contract_never_panics            no counter of `process_side` underflows;
+    cache_read_once, cached_terminate_once, cache_frozen_partial, cache_replayed_each_round_partial
+                                     (state-level facts that hold for EVERY history, contract or not);
+    bstart_nocache_conserves         (C09, no cache).
+  Proof: an invariant over the whole state (Lemmas/BinaryStart.lean `InvC`: phases round 1 / waiting for
+  the first loop-side batch / replaying + rest of a later round / terminating / terminated, relating the
+  receiver's counters, `Start`'s counters, the cache, the contract state of what is still queued or to be
+  sent, and the shape of the output so far), preserved by every `select` + `Start` step (`inv_select`),
+  lifted over pulls and histories (`pump_inv`, `runFrom_inv`).
 
-  `cache_read_once` and `cached_terminate_once` are proved at full strength (every state / every
-  history). `cache_replayed_each_round` is FALSE for the unchanged code:
-
-   * F6  (`cache_replay_counterexample`): with ≥ 2 replicas on the loop side the first loop-side
-     `Terminate` is consumed by the `first_message` branch of `select` (binary.rs:237-245), the
-     next `select` takes the cache branch (binary.rs:246-251) and replays the whole cache between the
-     last `FlushAndRestart` and `Terminate`.
-   * F6b (`cache_replay_timeout_counterexample`): `first_message` is cleared BEFORE the receive
-     (binary.rs:240); when that receive times out (`Start` uses `recv_timeout(max_delay)`,
-     mod.rs:286-301) the flag is lost, the cache is replayed before the loop side said whether a new
-     round starts, and if the loop has ended the replay lands after the last `FlushAndRestart` —
-     also with a single loop-side replica.
-
-  What is proved instead (`…_partial`): the mechanism that makes every round identical — the cache
-  never changes once the cached side has terminated (`cache_frozen_partial`), and a replay hands out
-  exactly the whole cache, in order, without touching a channel (`cache_replayed_each_round_partial`).
-  Missing for full strength (blocked by F6/F6b): that the cache equals the batches handed out in
-  round 1 (by construction of `process_side`, binary.rs:182-186, exercised by the correspondence
-  check only), and that a replay is started once per round and only in rounds that are opened by
-  a loop-side data batch.
+  Still `_partial` / not mechanised:
+    * the mirror image (RIGHT side cached): the model is not symmetric (branch order of `select`), the
+      proof would be a second copy of the invariant; covered by the examples below and by the
+      correspondence check (half of the generated cached cases). Note that the old unconditional
+      `cache_read_once_right` is false for the new code outside the contract (a loop-side batch
+      `[…, FlushAndRestart, Terminate]` makes 6c83288 skip the replay and the receiver then listens to the
+      terminated cached side), so it was removed rather than kept with a false statement;
+    * when both channels are non-empty at a `select` over both, the model takes the left one; the real
+      choice is unspecified (the theorems are about the model's choice; the generator never creates the
+      situation, tag `ambiguous`).
+  Findings F6 / F6b (cache replayed after the loop ended) are fixed; their witnesses are the first
+  `example`s below and the first cases of every correspondence run.
 -/
 import NoirVerif.Lemmas.BinaryStart
 namespace Noir.BinaryStart
@@ -50,6 +57,79 @@ theorem cache_read_once (st : State α) (hc : st.left.cached = true) (ht : st.le
     ∃ added, (runFrom st i ops).1.qL = st.qL ++ added := by
   obtain ⟨a, h⟩ := runFrom_leftDone ops st i st.qL ⟨hc, ht, rfl⟩
   exact ⟨a, h.queue⟩
+
+/-- **C11 (identical content in every round).** Left side cached, any `nL, nR ≥ 1`, any
+    contract-respecting history (any interleaving of the two sides, any receive timeouts, complete or
+    not): every round of the output that has been closed by a `FlushAndRestart` presents the cached
+    side — its data elements and its End marker, in order — exactly as the first round does. -/
+theorem cache_replayed_each_round (nL nR : Nat) (ops : List (Op α)) (hc : contractL nL nR ops = true) :
+    ∀ r ∈ (splitRounds (run nL nR true false ops).1).1,
+      presented true r = presented true ((splitRounds (run nL nR true false ops).1).1.headD []) := by
+  obtain ⟨P, rs, cur, h1, h2, _, _, h3⟩ := run_shaped nL nR ops hc
+  have hsplit : (splitRounds (run nL nR true false ops).1).1 = rs := by
+    rcases h3 with ⟨e1, e2, _⟩ | ⟨e1, _, _⟩
+    · rw [e1, splitRounds_shape rs h1 cur (fun e he => by have := e2 e he; simp [plainE] at this; exact this.1)]
+    · rw [e1, splitRounds_shape rs h1 [Elem.term] (fun e he => by simp at he; subst he; rfl)]
+  rw [hsplit]
+  intro r hr
+  rw [h2 r hr]
+  cases rs with
+  | nil => simp at hr
+  | cons r1 _ => exact (h2 r1 (by simp)).symm
+
+/-- **C11 (End marker once per round).** Same quantifier: every closed round contains the cached side's
+    End marker (`LeftEnd`) exactly once. -/
+theorem end_marker_once_each_round (nL nR : Nat) (ops : List (Op α)) (hc : contractL nL nR ops = true) :
+    ∀ r ∈ (splitRounds (run nL nR true false ops).1).1, markers r = 1 := by
+  obtain ⟨P, rs, cur, h1, h2, hm, _, h3⟩ := run_shaped nL nR ops hc
+  have hsplit : (splitRounds (run nL nR true false ops).1).1 = rs := by
+    rcases h3 with ⟨e1, e2, _⟩ | ⟨e1, _, _⟩
+    · rw [e1, splitRounds_shape rs h1 cur (fun e he => by have := e2 e he; simp [plainE] at this; exact this.1)]
+    · rw [e1, splitRounds_shape rs h1 [Elem.term] (fun e he => by simp at he; subst he; rfl)]
+  rw [hsplit]
+  intro r hr
+  rw [← markers_presented, h2 r hr]
+  exact hm (List.ne_nil_of_mem hr)
+
+/-- **C11 (nothing after the loop has ended).** Same quantifier; when the run has returned `Terminate`:
+    what follows the last `FlushAndRestart` is `Terminate` alone, and the whole output satisfies the
+    C11 recogniser (all rounds alike, nothing of the cached side after the last `FlushAndRestart`). -/
+theorem cache_not_replayed_after_loop_end [DecidableEq α] (nL nR : Nat) (ops : List (Op α))
+    (hc : contractL nL nR ops = true) (hd : (run nL nR true false ops).2 = .done) :
+    (splitRounds (run nL nR true false ops).1).2 = [Elem.term]
+    ∧ c11Ok true (run nL nR true false ops).1 = true := by
+  obtain ⟨P, rs, cur, h1, h2, _, _, h3⟩ := run_shaped nL nR ops hc
+  rcases h3 with ⟨_, _, e3⟩ | ⟨e1, _, _⟩
+  · exact absurd hd e3
+  · have hs := splitRounds_shape rs h1 [Elem.term] (fun e he => by simp at he; subst he; rfl)
+    rw [e1]
+    refine ⟨by rw [hs], ?_⟩
+    unfold c11Ok
+    rw [hs]
+    cases rs with
+    | nil => simp [presented, ofSide]
+    | cons r1 rest =>
+      simp only [Bool.and_eq_true, List.all_eq_true, decide_eq_true_eq]
+      refine ⟨fun r hr => ?_, by simp [presented, ofSide]⟩
+      rw [h2 r (by simp [hr]), h2 r1 (by simp)]
+
+/-- **No counter underflow.** A contract-respecting history never drives a `usize` counter of
+    `process_side` below zero (the model's `panic` outcome). -/
+theorem contract_never_panics (nL nR : Nat) (ops : List (Op α)) (hc : contractL nL nR ops = true) :
+    (run nL nR true false ops).2 ≠ .panic := by
+  obtain ⟨_, _, _, _, _, _, h, _⟩ := run_shaped nL nR ops hc
+  exact h
+
+/-- Non-vacuity: the witnesses below respect the contract. -/
+example :
+    contractL 1 2 (Op.b true 0 [.item 41, .far, .term] ++ Op.b false 0 [.far] ++ [.enq false 1 [.far]]
+        ++ Op.b false 0 [.term] ++ Op.b false 1 [.term] : List (Op Nat)) = true
+    ∧ contractL 1 1 (Op.b true 0 [.item 41, .far, .term] ++ Op.b false 0 [.far] ++ Op.b false 0 [.term]
+        : List (Op Nat)) = true
+    ∧ contractL 1 2 (Op.b true 0 [.item 41, .far, .term] ++ Op.b false 0 [.far] ++ Op.b false 1 [.far]
+        ++ Op.b false 1 [.item 5] ++ Op.b false 0 [.far] ++ Op.b false 1 [.far]
+        ++ Op.b false 1 [.term] ++ Op.b false 0 [.term] : List (Op Nat)) = true := by
+  decide
 
 /-- Former finding F6 (fixed by 6c83288), now the right output: left side cached with one replica
     (one element `41`), loop side with TWO replicas, one round, the batch that ends the round and
